@@ -1,4 +1,5 @@
 BBR = "core:internal/congestion/bbr"
+SEED = "core:internal/congestion"
 
 PROP = {'technique': 'property-based testing (rapid): discrete-event bottleneck simulator with a mini QUIC sent-packet handler driving the real '
               'bbrSender on a virtual clock; invariants after every controller call; loss-free liveness cell with a measured threshold',
@@ -17,8 +18,12 @@ PROP = {'technique': 'property-based testing (rapid): discrete-event bottleneck 
                  'per-packet bookkeeping bound: connectionStateMap slots <= 2 x (largest sent PN - oldest PN the controller may still hear about + 1) + 8; '
                  'a0Candidates <= 2 x (largest such span seen so far) + 8',
                  'pacer progress is checked while pacing bandwidth x (now - last send) < 2^62 (C11 range)',
+                 'seeding (TestVerifC12_Seed*): the controller is built as UseBBR does (seedPacketSize(conn.InitialPacketSize(), GetInitialPacketSize(remote))); '
+                 'QUIC then reports only sizes above the size it started at (reported size, or 1280 when it reports 0), following quic-go mtu_discoverer.go',
                  'liveness threshold theta = 0.45, fixed at half of the minimum second-half utilisation measured on the unchanged tree'],
- 'tests': [{'name': 'TestVerifC12_Regress_AckOnlyGap', 'unit': BBR, 'kind': 'plain', 'known_sig': 'ackonly-gap'},
+ 'tests': [{'name': 'TestVerifC12_SeedGrid', 'unit': SEED, 'kind': 'plain'},
+           {'name': 'TestVerifC12_Seed', 'unit': SEED, 'quick': 3000, 'thorough': 20000, 'shards_thorough': 4},
+           {'name': 'TestVerifC12_Regress_AckOnlyGap', 'unit': BBR, 'kind': 'plain', 'known_sig': 'ackonly-gap'},
            {'name': 'TestVerifC12_Traces', 'unit': BBR, 'quick': 500, 'shards': 4, 'thorough': 5000, 'shards_thorough': 16,
             'timeout_quick': 900, 'timeout_thorough': 5400},
            {'name': 'TestVerifC12_Liveness', 'unit': BBR, 'quick': 60, 'shards': 4, 'thorough': 400, 'shards_thorough': 16,
